@@ -20,6 +20,8 @@ NOT_APPLICABLE = {
 }
 
 ALL = [f"C{i:02d}" for i in range(1, 21)]
+# checks that are finished and registered (a module file alone does not claim anything)
+READY = ["C12", "C13"]
 
 
 def main():
@@ -28,10 +30,10 @@ def main():
     claimed = []
     for pid in ALL:
         path = VERIF / "simverif" / "checks" / f"{pid.lower()}.py"
-        if not path.exists():
+        if not path.exists() or pid not in READY:
             continue
         mod = importlib.import_module(f"simverif.checks.{pid.lower()}")
-        if getattr(mod, "DISABLED", False):
+        if getattr(mod, "DISABLED", False) or pid not in READY:
             continue
         claimed.append(pid)
         checks.append(
